@@ -34,6 +34,18 @@ TRUE = Const(True)
 FALSE = Const(False)
 
 
+class _LoopExit:
+    def __init__(self, kind):
+        self.kind = kind
+
+    def __repr__(self):
+        return "<%s>" % self.kind
+
+
+CONTINUE = _LoopExit("continue")
+BREAK = _LoopExit("break")
+
+
 class Seq:
     __slots__ = ("kind", "items", "ident")
 
@@ -167,6 +179,21 @@ def _phi_size(v, depth=0):
 def mkphi(cond, a, b):
     if a is b:
         return a
+    # canonical polarity of the gate: lt / eq / is / in / un-negated
+    if isinstance(cond, Cond):
+        t = cond.tree
+        if t[0] == "not":
+            cond, a, b = Cond(t[1]), b, a
+        elif t[0] == "cmp" and t[1] == "le":
+            cond, a, b = Cond(("cmp", "lt", t[3], t[2])), b, a
+        elif t[0] == "cmp" and t[1] == "ge":
+            cond, a, b = Cond(("cmp", "lt", t[2], t[3])), b, a
+        elif t[0] == "cmp" and t[1] == "gt":
+            cond = Cond(("cmp", "lt", t[3], t[2]))
+        elif t[0] == "cmp" and t[1] in ("ne", "isnot", "notin"):
+            cond, a, b = Cond(("cmp", {"ne": "eq", "isnot": "is", "notin": "in"}[t[1]], t[2], t[3])), b, a
+        elif t[0] == "or" and all(isinstance(x, tuple) and (x[0] == "not" or (x[0] == "cmp" and x[1] in ("le", "ge", "ne", "isnot", "notin"))) for x in t[1:]):
+            cond, a, b = Cond(_cnot(t)), b, a
     if isinstance(a, DictV) and isinstance(b, DictV) and set(a.items) == set(b.items) and a.fallback == b.fallback and a.ident == b.ident:
         # structural merge: keep one dict, gate the entries that differ
         out = DictV({}, a.fallback, a.ident)
@@ -182,6 +209,8 @@ def mkphi(cond, a, b):
 
 def key(v):
     """Canonical hashable text of a value."""
+    if isinstance(v, _LoopExit):
+        return "<%s>" % v.kind
     if isinstance(v, Num):
         return v.key()
     if isinstance(v, Const):
@@ -265,7 +294,12 @@ def _cnot(t):
     if t[0] == "not":
         return t[1]
     if t[0] == "cmp":
-        return ("cmp", NEG[t[1]], t[2], t[3])
+        op = NEG[t[1]]
+        if op == "gt":
+            return ("cmp", "lt", t[3], t[2])
+        if op == "ge":
+            return ("cmp", "le", t[3], t[2])
+        return ("cmp", op, t[2], t[3])
     if t[0] == "and":
         return ("or",) + tuple(_cnot(x) for x in t[1:])
     if t[0] == "or":
@@ -404,6 +438,7 @@ class SymLimit(Exception):
 # evaluator
 # ---------------------------------------------------------------------------
 
+FRESH_CTORS = {"datetime.datetime.combine", "datetime.datetime", "datetime.date", "datetime.time", "datetime.timedelta", "datetime.datetime.now", "datetime.date.today"}
 MATH_UNARY = {"floor", "ceil", "log", "log10", "sqrt", "exp", "fabs", "trunc"}
 PURE_BUILTINS = {"round", "abs", "int", "float", "len", "max", "min", "pow", "str", "sum", "bool", "ord", "chr", "repr"}
 
@@ -445,13 +480,90 @@ class Evaluator:
     def assume(self, cond_key, value):
         self.facts[cond_key] = value
 
+    def assuming(self, c, pol):
+        """Context manager: while evaluating a branch taken under condition c == pol, the atomic facts it
+        implies are known (and/or/not decomposed)."""
+        ev = self
+        added = []
+
+        def add(t, p_):
+            if isinstance(t, tuple) and t[0] == "not":
+                add(t[1], not p_)
+            elif isinstance(t, tuple) and t[0] == "and" and p_:
+                for x in t[1:]:
+                    add(x, True)
+            elif isinstance(t, tuple) and t[0] == "or" and not p_:
+                for x in t[1:]:
+                    add(x, False)
+            else:
+                k = ckey(t)
+                if k not in ev.facts:
+                    ev.facts[k] = p_
+                    added.append(k)
+
+        class _Ctx:
+            def __enter__(self_):
+                if isinstance(c, Cond):
+                    add(c.tree, pol)
+                return self_
+
+            def __exit__(self_, *a):
+                for k in added:
+                    ev.facts.pop(k, None)
+                return False
+
+        return _Ctx()
+
+    def refine(self, v, depth=0):
+        """Resolve gates whose condition is a known fact on the current path."""
+        if isinstance(v, Phi) and depth < 6 and self.facts:
+            c = self._fold_assumed(v.cond) if isinstance(v.cond, Cond) else v.cond
+            if isinstance(c, Const):
+                return self.refine(v.a if c.v else v.b, depth + 1)
+        return v
+
+    def _known(self, t, depth=0):
+        """Truth value of condition tree t from the facts assumed on the current path, or None."""
+        if not isinstance(t, tuple) or depth > 6:
+            return None
+        k = ckey(t)
+        if k in self.facts:
+            return self.facts[k]
+        if t[0] == "not":
+            v = self._known(t[1], depth + 1)
+            return None if v is None else not v
+        if t[0] in ("and", "or"):
+            vs = [self._known(x, depth + 1) for x in t[1:]]
+            if t[0] == "and":
+                if any(v is False for v in vs):
+                    return False
+                if all(v is True for v in vs):
+                    return True
+            else:
+                if any(v is True for v in vs):
+                    return True
+                if all(v is False for v in vs):
+                    return False
+            return None
+        if t[0] == "cmp" and t[1] in NEG:
+            nk = ckey(_cnot(t))
+            if nk in self.facts:
+                return not self.facts[nk]
+        if t[0] == "phi":
+            c0 = self._known(t[1], depth + 1)
+            if c0 is not None:
+                return self._known(t[2] if c0 else t[3], depth + 1)
+        return None
+
     def _fold_assumed(self, c):
         if not isinstance(c, Cond):
             return c
         t = c.tree
+        if self.facts:
+            kv = self._known(t)
+            if kv is not None:
+                return Const(kv)
         k = ckey(t)
-        if k in self.facts:
-            return Const(self.facts[k])
         nk = ckey(_cnot(t))
         if nk in self.facts:
             return Const(not self.facts[nk])
@@ -591,7 +703,7 @@ class Evaluator:
         return Const(v)
 
     def e_Name(self, n, st):
-        return self.name(n, st)
+        return self.refine(self.name(n, st))
 
     def e_NamedExpr(self, n, st):
         v = self.expr(n.value, st)
@@ -728,15 +840,24 @@ class Evaluator:
         if isinstance(n, ast.BoolOp):
             isand = isinstance(n.op, ast.And)
             parts = []
-            for e in n.values:
-                c = self.cond(e, st)
-                if isinstance(c, Const):
-                    if isand and not c.v:
-                        return FALSE if not parts else self._bool_join(True, parts + [FALSE])
-                    if (not isand) and c.v:
-                        return TRUE if not parts else self._bool_join(False, parts + [TRUE])
-                    continue
-                parts.append(c)
+            ctxs = []
+            try:
+                for e in n.values:
+                    c = self.cond(e, st)
+                    if isinstance(c, Const):
+                        if isand and not c.v:
+                            return FALSE if not parts else self._bool_join(True, parts + [FALSE])
+                        if (not isand) and c.v:
+                            return TRUE if not parts else self._bool_join(False, parts + [TRUE])
+                        continue
+                    parts.append(c)
+                    # short-circuit: later operands are evaluated only if this one is true (and) / false (or)
+                    cm = self.assuming(c, isand)
+                    cm.__enter__()
+                    ctxs.append(cm)
+            finally:
+                for cm in reversed(ctxs):
+                    cm.__exit__(None, None, None)
             if not parts:
                 return TRUE if isand else FALSE
             if len(parts) == 1:
@@ -813,7 +934,7 @@ class Evaluator:
         return self._bool_join(True, res)
 
     def compare(self, op, a, b):
-        if (isinstance(a, Phi) or isinstance(b, Phi)) and _phi_size(a) + _phi_size(b) <= 16 and op not in ("is", "isnot"):
+        if (isinstance(a, Phi) or isinstance(b, Phi)) and _phi_size(a) + _phi_size(b) <= 16 and (op not in ("is", "isnot") or (isinstance(b, Const) and b.v is None) or (isinstance(a, Const) and a.v is None)):
             r = self._dist(lambda xs: self.compare(op, xs[0], xs[1]), [a, b])
             if isinstance(r, Phi):
                 # boolean Phi -> condition
@@ -856,6 +977,8 @@ class Evaluator:
             ka, kb = key(a), key(b)
             if ka == kb and (isinstance(a, (Seq, DictV)) and a.ident is not None or isinstance(a, Opaque)):
                 return Const(op == "is")
+            if ka != kb and isinstance(a, Opaque) and isinstance(b, Opaque) and (a.kind in ("fresh", "new") or b.kind in ("fresh", "new")):
+                return Const(op == "isnot")
             return Cond(("cmp", op, a, b))
         if op in ("in", "notin"):
             if isinstance(b, Seq) and isinstance(a, Const) and all(isinstance(x, Const) for x in b.items):
@@ -1126,6 +1249,8 @@ class Evaluator:
             r = self.on_getitem(base, idx, st)
             if r is not None:
                 return r
+        if isinstance(idx, Phi) and _phi_size(idx) <= 8:
+            return mkphi(idx.cond, self.getitem(base, idx.a, st), self.getitem(base, idx.b, st))
         ic = num_const(idx)
         if isinstance(base, Cat) and ic is not None and ic.denominator == 1 and int(ic) in (0, -1):
             part = base.parts[0] if int(ic) == 0 else base.parts[-1]
@@ -1201,6 +1326,32 @@ class Evaluator:
 
     def _comp(self, n, st, kind):
         if len(n.generators) != 1:
+            out = []
+
+            def rec(gi, s_):
+                if gi == len(n.generators):
+                    out.append(self.expr(n.elt, s_))
+                    return True
+                g_ = n.generators[gi]
+                items_ = self.iter_items(self.expr(g_.iter, s_))
+                if items_ is None:
+                    return False
+                for x_ in items_:
+                    s3 = State(Env({}, s_.env, s_.env.module, s_.env.func), s_.heap)
+                    s3.events = s_.events
+                    self.bind(g_.target, x_, s3)
+                    keep = True
+                    for c_ in g_.ifs:
+                        t_ = self.truth(self.expr(c_, s3))
+                        if not isinstance(t_, Const):
+                            return False
+                        keep = keep and t_.v
+                    if keep and not rec(gi + 1, s3):
+                        return False
+                return True
+
+            if rec(0, st):
+                return Seq(kind, out, ident="A:comp@%s" % n.lineno)
             return Opaque("<comp %s>" % ntext(n))
         g = n.generators[0]
         it = self.expr(g.iter, st)
@@ -1260,6 +1411,10 @@ class Evaluator:
     def iter_items(self, v):
         if isinstance(v, Seq):
             return list(v.items)
+        if isinstance(v, StrSym):
+            return [StrSym([c], v.upper) for c in v.chars]
+        if isinstance(v, Const) and isinstance(v.v, str) and len(v.v) <= 64:
+            return [Const(c) for c in v.v]
         if isinstance(v, DictItems):
             return [Seq("tuple", [Const(k), x]) for k, x in v.d.items.items()] if v.d.fallback is None else None
         if isinstance(v, DictV) and v.fallback is None:
@@ -1603,6 +1758,8 @@ class Evaluator:
         st.events.append(("call-ext", name, [key(a) for a in args], node))
         if allnum and args and short in ("floor", "ceil"):
             return Num.atom((short, nums[0].key()))
+        if name in FRESH_CTORS:
+            return Opaque(txt, kind="fresh")
         return Opaque(txt)
 
     def call_bound(self, b, args, kwargs, st, node):
@@ -1842,15 +1999,19 @@ class Evaluator:
                     s1, s2 = st.fork(), st.fork()
                     self.on_branch(s, c, True, s1)
                     self.on_branch(s, c, False, s2)
-                    self.block(list(s.body), s1, [])
-                    self.block(list(s.orelse), s2, [])
+                    with self.assuming(c, True):
+                        self.block(list(s.body), s1, [])
+                    with self.assuming(c, False):
+                        self.block(list(s.orelse), s2, [])
                     self.merge(st, c, s1, s2)
                     continue
                 s1, s2 = st.fork(), st.fork()
                 self.on_branch(s, c, True, s1)
                 self.on_branch(s, c, False, s2)
-                r1 = self.block(list(s.body) + rest, s1, cont)
-                r2 = self.block(list(s.orelse) + rest, s2, cont)
+                with self.assuming(c, True):
+                    r1 = self.block(list(s.body) + rest, s1, cont)
+                with self.assuming(c, False):
+                    r2 = self.block(list(s.orelse) + rest, s2, cont)
                 self.merge(st, c, s1, s2)
                 if r1 is None and r2 is None:
                     return None
@@ -1980,9 +2141,10 @@ class Evaluator:
         if isinstance(s, ast.Try):
             r = self.block(s.body, st, [])
             return r
-        if isinstance(s, (ast.Break, ast.Continue)):
-            st.events.append(("loop-exit", type(s).__name__, s))
-            return None
+        if isinstance(s, ast.Continue):
+            return Ret(CONTINUE)
+        if isinstance(s, ast.Break):
+            return Ret(BREAK)
         st.events.append(("stmt-unknown", ntext(s), s))
         return None
 
@@ -2012,6 +2174,15 @@ class Evaluator:
                 self.bind(s.target, x, st)
                 r = self.block(s.body, st, [])
                 if r is not None:
+                    if r.value is CONTINUE:
+                        continue
+                    if r.value is BREAK:
+                        break
+                    if _only_loop_exits(r.value):
+                        # some paths continue, none returns: state already merged
+                        if _has_break(r.value):
+                            st.events.append(("break-maybe", s))
+                        continue
                     return r
             return None
         return self.generic_loop(s, st, it)
@@ -2119,6 +2290,24 @@ class Evaluator:
                 st.heap = _heapcopy(st.heap)
                 st.heap[k] = Opaque("%s.%s@after-loop%d" % (k[0], k[1], line))
         return None
+
+
+def _only_loop_exits(v):
+    if isinstance(v, _LoopExit):
+        return True
+    if isinstance(v, Const) and v.v is None:
+        return True
+    if isinstance(v, Phi):
+        return _only_loop_exits(v.a) and _only_loop_exits(v.b)
+    return False
+
+
+def _has_break(v):
+    if v is BREAK:
+        return True
+    if isinstance(v, Phi):
+        return _has_break(v.a) or _has_break(v.b)
+    return False
 
 
 def _seqlike(v):
